@@ -5,6 +5,7 @@ from props import shellcommon as sc
 from sim.scenarios import Pair, HANDSHAKE
 from sim.trace import hdr_fields
 from sim.world import LoopEscape
+from props import hdl
 from vlib import core
 from vlib.core import Failure
 
@@ -318,7 +319,7 @@ def correspond(ctx):
                                       'postponed_rekey_then_child')
             or r[0].startswith('walk')]
     results += sc.execute(ctx, runs)
-    return sc.shell_correspondence(ctx, results, kinds=(0, 1, 2, 3), focus=focus)
+    return (sc.shell_correspondence(ctx, results, kinds=(0, 1, 2, 3), focus=focus)) + hdl.tie(ctx)
 
 
 def oracle(ctx, deep):
@@ -373,7 +374,7 @@ def replay(ctx, obj):
 
 
 CHECK = core.Check(
-    'C13', sc.CLUSTER, 'Props/C13.v', translate=sc.translate, correspond=correspond, oracle=oracle, replay=replay,
+    'C13', sc.CLUSTER, ['Props/C13.v', 'Props/C13H.v'], translate=sc.translate, correspond=correspond, oracle=oracle, replay=replay,
     regressions=regressions, deps=('lib',),
     rule='virtual clock (whole seconds); for each of 12 request kinds (IKE_SA_INIT, IKE_AUTH, CREATE_CHILD_SA new / '
          'rekey / rekey with PFS, INFORMATIONAL delete CHILD / delete IKE / DPD, IKE_SA rekey, and the retries after '
@@ -381,7 +382,7 @@ CHECK = core.Check(
          'timers are swept under fine / coarse / mixed / random tick patterns; plus DPD and lifetime runs, and a peer '
          'crash injected after every step of scripted exchanges; every recorded timer call is replayed in the model; '
          'non-trivial = a sweep that emitted, changed the counter or the state',
-    trusted_base=sc.TRUSTED + ['time is modelled in whole seconds: the harness feeds only integer clock values and '
+    trusted_base=sc.TRUSTED + hdl.TRUSTED + ['time is modelled in whole seconds: the harness feeds only integer clock values and '
                                'integer jitter, so float and Z arithmetic coincide; float rounding and the real '
                                'scheduler (select timeout) are outside the model'],
     assumptions=['timestamps are non-decreasing', 'one sweep = one iteration of main_loop (all three timer loops)'],
